@@ -112,3 +112,36 @@ Print Assumptions is_err_iff.
 Print Assumptions fault_injection_theorem.
 Print Assumptions out_of_set_answer_is_failure.
 Print Assumptions fault_of_unfold.
+
+(* C13 end to end (Proofs/SolverFaultsEndToEnd.v): for the GENERATING model against ANY typed provider (it may
+   misbehave): an error answer is the last call of the run and the outcome is the matching error variant; an error outcome
+   is explained by an error answer that is the last call; a version outside the offered set is refused with Failure and
+   no call follows it. *)
+From Coq Require Import List NArith ZArith Bool Lia PeanoNat.
+From PG Require Import Model.VS Model.Term Model.Heap Model.Solver Proofs.SolverTrace Proofs.SolverDet
+  Proofs.SolverGen Proofs.SolverFaults Proofs.SolverInject Proofs.SolverEndToEnd.
+From PG Require Import Proofs.SolverFaultsEndToEnd.
+Import ListNotations.
+Local Open Scope nat_scope.
+Section C13_end_to_end.
+  Context {VS Vr : Type} (O : VSOps VS Vr) (veqb : Vr -> Vr -> bool).
+  Notation event := (@event VS Vr).
+  Notation outcome := (@outcome VS Vr).
+  Notation result := (@result VS Vr).
+  Notation tprovider := (@tprovider VS Vr).
+
+  Theorem provider_error_aborts_the_model_faithfully :
+    (forall v, veqb v v = true) -> (forall s, vs_eqb O s s = true) -> (forall a b, veqb a b = true -> a = b) ->
+    forall (pg : tprovider) fuel r v res tr, resolve_g O veqb pg fuel r v = (res, tr) ->
+      (* an error answer is the LAST call of the run and the outcome is the matching error variant *)
+      (forall pre e rest, tr = pre ++ e :: rest -> is_err e = true -> rest = [] /\ err_outcome e = Some (fst (fst (fst res))))
+      (* conversely an error outcome is explained by an error answer of the provider, which is the last call *)
+      /\ (fst (fst (fst res)) = OErrCancel -> exists pre, tr = pre ++ [EvCancel false])
+      /\ (fst (fst (fst res)) = OErrChoose -> exists pre p s, tr = pre ++ [EvChoose p s CErr])
+      /\ (forall p w, fst (fst (fst res)) = OErrDeps p w -> exists pre, tr = pre ++ [EvDeps p w DErr])
+      (* a version outside the offered set is refused: Failure, and no call is made after that answer *)
+      /\ (forall pre p s w rest, tr = pre ++ EvChoose p s (CSome w) :: rest -> vs_contains O s w = false ->
+            rest = [] /\ fst (fst (fst res)) = OFailure FIncompatibleVersion).
+  Proof. exact (resolve_g_error_aborts_faithfully O veqb). Qed.
+End C13_end_to_end.
+Print Assumptions provider_error_aborts_the_model_faithfully.
